@@ -4,7 +4,7 @@ A failing case is attributed to a finding only if
   (i)   the failure is of the finding's kind (and, for a crash, of its exception class / message),
   (ii)  the *case* has the triggering feature: the model (coq/Model/Place.v), run on the case, reports that the side
         condition of the corresponding _partial theorem fails on the final state (letters L P M U V of `diag`), or
-        — for the fused-token finding — a data-block vector of the class is written next to an original shortcut,
+        — for the fused-token finding — a data-block card of the five classes ends with a jump in the input,
   (iii) the case passes the whole oracle once every diagnosed feature is neutralised (the class is printed in the
         other block; shortcuts of the modifier cards are expanded in the input).
 Anything else stays a violation."""
@@ -74,12 +74,18 @@ def C09_volume_deleted_in_data_block(case, params):
     return _by_letter(case, "V", exc="AttributeError", msg="'value'")
 
 
-def C09_vector_next_to_original_shortcut(case, params):
-    """a data-block vector that had shortcuts in the input is rewritten after the cell list changed (D4)"""
+def C09_vector_after_trailing_jump(case, params):
+    """a data-block card of the five classes whose last input token is a jump (j, 2j) gets a value appended (a cell
+    with information was added, or the last cells got values): the value is fused with the jump ('j10')"""
     import props.C09 as C09
     c = _core(case)
-    if c is None or case.get("kind") not in ("vector-entry", "misaligned"):
+    if c is None or case.get("kind") not in ("vector-entry",):
         return False
-    if C09.expand_modifier_shortcuts(c["text"]) == c["text"]:
+    if not C09.ends_with_jump(c["text"]):
+        return False
+    d = case.get("detail") or []
+    toks = [str(x).upper() for x in (d[1] if len(d) > 1 and isinstance(d[1], list) else [])]
+    import re
+    if not any(re.match(r"^\d*J[-+.0-9]", t) for t in toks):
         return False
     return _passes_neutralised(c, C09.model_diag(c))
